@@ -304,7 +304,7 @@ def run(ctx):
                 raise vlib.Inconclusive("binding self-test failed: a trace with a dropped registration was accepted")
         # (c) strictness: a non-most-specific (but matching) resolution must be rejected by the strict spec
         #     and accepted by the as-built one
-        syn = [dict(ev="reset", case=0)]
+        syn = [dict(ev="reset", case=0, forget=1)]
         P = [["a", "*", "*"], ["a", "x", "*"], ["a", "x", "y"]]
         for q in P:
             syn.append(dict(ev="reg", case=0, p=q, set=setting(q, 0)))
